@@ -182,7 +182,13 @@ package transport
 //@   at `c.mu.Unlock()` ghost held = false
 //@   callsite writeJsonWithSSE: requires held
 //@   at `fmt.Fprint(w, "event: complete\n\n")` requires held
-//@   at! `c.write(func() { fmt.Fprint(w, "event: complete\n\n") })` requires calls(DispatchOperation) + calls(DispatchError) == 1
+//@   at! `c.write(func() { fmt.Fprint(w, "event: complete\n\n") c.close() })` requires calls(DispatchOperation) + calls(DispatchError) == 1
+//@   ghost wAtComplete = 0 - 1
+//@   at! `fmt.Fprint(w, "event: complete\n\n")` ghost wAtComplete = calls(write)
+//@   at! `c.close()` requires held && wAtComplete == calls(write) && calls(Fprint) == 2
+//@   callsite write: requires calls(close) == 0 && calls(stopKeepAlive) == 0
+//@   ensures calls(spawn) >= 1 ==> calls(stopKeepAlive) == 1
+//@   ensures @C05 calls(spawn) >= 1 ==> calls(stopKeepAlive) == 1
 //@   ghost drained = false
 //@   at `responses(ctx)` ghost drained = callres0 == nil
 //@   ensures @C05 calls(DispatchOperation) >= 1 ==> drained
@@ -494,13 +500,15 @@ package transport
 //@ trusted dyn:f()
 //@ func (*sseConnection).write [C12]
 //@   requires c != nil
+//@   replay sseWrites.go.tmpl
 //@   ghost held = false
 //@   at `c.mu.Lock()` ghost held = true
 //@   at `defer c.mu.Unlock()` requires held
-//@   at! `f()` requires held
+//@   at! `f()` requires held && !c.closed
 //@   callsite Flush: requires held
 //@   ensures calls(Lock) == 1 && calls(Unlock) == 1
-//@   ensures !panicked ==> calls("dyn:f") == 1 && calls(Flush) == 1
+//@   ensures !panicked && !old(c.closed) ==> calls("dyn:f") == 1 && calls(Flush) == 1
+//@   ensures old(c.closed) ==> calls("dyn:f") == 0 && calls(Flush) == 0
 //@   runs f with held = true
 //@ func (*sseConnection).keepAlive [C12]
 //@   requires c != nil
@@ -510,6 +518,21 @@ package transport
 //@   callsite Fprint: requires held
 //@   callsite Flush: requires held
 //@   ensures !held
+// The stream is closed under the lock, together with writing the complete event; a closed connection is never
+// written to again by write (so no ping follows `complete` and nothing touches the ResponseWriter once Do is over:
+// Do calls stopKeepAlive on every exit after it started the keep-alive goroutine).
+//@ func (*sseConnection).close [C12,C05]
+//@   requires c != nil
+//@   ensures c.closed
+//@   modifies sseConnection.closed
+//@ func (*sseConnection).stopKeepAlive [C12,C05]
+//@   requires c != nil
+//@   ghost held = false
+//@   at `c.mu.Lock()` ghost held = true
+//@   at `defer c.mu.Unlock()` requires held
+//@   at! `c.close()` requires held
+//@   ensures calls(Lock) == 1 && calls(Unlock) == 1 && calls(close) == 1
+//@   ensures c.closed
 //@ func (*sseConnection).flush [C12]
 //@   requires c != nil
 //@   ghost held = false
